@@ -94,12 +94,59 @@ CLAIMED = {
         note="Point iterators (QueueReader) are not covered here. Trusted: mirsym + models, z3.",
         technique="symbolic execution of rustc MIR into SMT (z3), inductive step from arbitrary invariant state",
         ref="§6 C17"),
+    "C01": dict(
+        engine="kani+mirsym",
+        text="Binary round trip decided in two halves on the real code: (writer) symbolic execution of PointCloudWriter new/add_point/finalize from ANY 4-aligned writer state with symbolic "
+             "in-range values; an independent decoder walks the produced section and must find, per attribute, exactly the specified bit stream (value - min, w bits, LSB first; floats LE) "
+             "and the right descriptor; (reader) QueueReader::advance over ANY packet bytes decodes a data packet into exactly the specified values; the bit codec itself is decided by Kani "
+             "for widths 0..64 x phases (C12).",
+        note="Prototype shapes are concrete (3 shapes: widths 0,1,11,33,64, single, double, scaled); 1 point per run in quick. XML transport of the prototype, E57Writer/E57Reader glue and the composition "
+             "of the two halves are outside the solver. Known finding: all-constant prototypes do not round trip.",
+        technique="symbolic execution of rustc MIR into SMT (z3) with an independent section decoder; Kani for the bit codec",
+        ref="§6 C01"),
+    "C03": dict(
+        engine="kani+mirsym",
+        text="One QueueReader::advance over ANY packet bytes (symbolic execution of the real MIR): data packets with any per-stream byte counts decode to the specified values, index and ignored "
+             "packets of any legal length leave the cursor exactly behind the packet; header parsers accept exactly the legal headers for all input bytes (Kani); page-boundary placement is C11.",
+        note="Bounds: one packet per run, streams <= 9 bytes, concrete prototype shapes. Optional XML attributes / lexical XML forms are outside this technique.",
+        technique="symbolic execution of rustc MIR into SMT (z3); Kani for header parsers",
+        ref="§6 C03"),
+    "C08": dict(
+        engine="kani+mirsym",
+        text="No feasible panic path (overflow checks on) for: all header parsers over all input bytes, PagedReader::new for all page sizes/lengths, read/seek/align from any state, validate_crc, "
+             "extract_xml and Blob::read for any offsets/lengths, QueueReader::advance for any packet bytes, Range construction/normalisation for all f64, bit width/extract for all i64 ranges.",
+        note="The XML parser, from_node functions and UTF-8 validation are outside. Prototype shapes concrete. Trusted: mirsym + models (slice bound and unwrap panics are modelled), Kani/CBMC.",
+        technique="bounded model checking (Kani) + symbolic execution of MIR into SMT (z3): every panic edge must be infeasible",
+        ref="§6 C08"),
+    "C09": dict(
+        engine="mirsym",
+        text="Bounded-resource form decided per call on every symbolic path: every allocation size is bounded by a packet (65536 B) or the 10 MiB XML cap, and every call finishes within the "
+             "executor's step budget; a satisfiable path exceeding it is reported as unbounded work and replayed natively under a time/memory limit.",
+        note="Covers QueueReader::advance (incl. all-constant prototypes), extract_xml, Blob::read. The XML parser's own resource use and the iterator-level record bound are not executed.",
+        technique="symbolic execution of rustc MIR into SMT (z3) with allocation-size claims and a step budget",
+        ref="§6 C09"),
+    "C10": dict(
+        engine="kani+mirsym",
+        text="add_point with ANY i64 for an integer attribute returns Ok exactly when the value lies in min..max, wrong arity/kind gives Err (symbolic execution of the MIR); packet capacity "
+             "arithmetic is total and sound for every prototype of 1..4 records of any type/range (Kani); integer serialisation never panics for all i64 (Kani).",
+        note="The documented prototype rules are exercised on accepted concrete prototypes only, not as a full accept/reject table.",
+        technique="symbolic execution of rustc MIR into SMT (z3) + bounded model checking (Kani)",
+        ref="§6 C10"),
+    "C14": dict(
+        engine="kani+mirsym",
+        text="For concrete prototype shapes and symbolic non-NaN values the Cartesian bounds registered by finalize equal the min/max of their own attribute as real values and bound groups "
+             "are present exactly for the groups in the prototype (symbolic execution of the MIR); update_min/update_max and default limits are decided for all values (Kani).",
+        note="In-memory descriptor only (XML excluded); spherical/index routing only in thorough shapes.",
+        technique="symbolic execution of rustc MIR into SMT (z3) + bounded model checking (Kani)",
+        ref="§6 C14"),
 }
 
 NOT_APPLICABLE = {
     "C04": "metadata round trip is format!/Display text + roxmltree parsing + str::parse; not encodable for a solver within reach (DESIGN §7)",
     "C18": "subject is roxmltree's namespace/lookup semantics on XML text; no bounded solver encoding within reach (DESIGN §7)",
     "C19": "whole-file copy through both XML directions and determinism of String building; not reachable by solver-based checking (DESIGN §7)",
+    "C05": "the simple iterator's conversion and bookkeeping code (pc_reader_simple next/pop_point, trigonometric conversions, pose) was not reached with the symbolic executor in the available time; "
+           "its normalisation kernel is covered under C13 and the queue layer under C03/C08/C09",
     "C20": "process-level behaviour of the bundled binaries (args, files, exit status); no function boundary to harness (DESIGN §7)",
 }
 
